@@ -408,6 +408,7 @@ fn channel_source_scenario(n: usize, p: u64, bound: usize) -> Scenario {
         max_execs: 0,
         shards: 1,
         nontrivial: n > 1,
+        unbounded: false,
     }
 }
 
